@@ -97,6 +97,9 @@ func matchWordSet(l *Ledger, rule, construct, pos string, words []string, patter
 func nativeWords(p *Prog, l *Ledger, typeName string) ([]string, *ssa.Function, bool) {
 	fn := p.Func("interpreter." + typeName + ".Call")
 	if fn == nil {
+		fn = p.Func("interpreter.(*" + typeName + ").Call") // the same method on a pointer receiver
+	}
+	if fn == nil {
 		return nil, nil, false
 	}
 	m := NewInterpModel(p, "builtin/"+typeName)
